@@ -24,6 +24,7 @@ inductive Guard where
   | natOrNone   -- if v is not None: assert v >= 0; assert isinstance(v, int)
   | str         -- assert v is not None; assert isinstance(v, str)
   | strOrList   -- ... isinstance(v, str) or isinstance(v, list)
+  | strOrStrList -- ... isinstance(v, str) or (isinstance(v, list) and all(isinstance(i, str) for i in v))
   | strOrFloat  -- ... isinstance(v, str) or isinstance(v, float)
   | bool        -- ... isinstance(v, bool)
   deriving DecidableEq, Repr
@@ -51,6 +52,9 @@ structure ClassSpec where
   attrs : List String
   /-- error raised for an unknown key when not forgiving -/
   unknownErr : String
+  /-- `_set_fields` tests `k in self.__dict__` (only fields pass) rather than `self.__getattribute__(k)` (methods and class
+  attributes pass too) -/
+  strictFields : Bool := false
   deriving Repr
 
 def names (c : ClassSpec) : List String := c.fields.map (·.name)
@@ -92,6 +96,9 @@ def guardCheck (g : Guard) (v : JVal) : Except Err Unit :=
   | .strOrList, .str _ => .ok ()
   | .strOrList, .arr _ => .ok ()
   | .strOrList, _ => .error "assertion"
+  | .strOrStrList, .str _ => .ok ()
+  | .strOrStrList, .arr xs => if xs.all isStr then .ok () else .error "assertion"
+  | .strOrStrList, _ => .error "assertion"
   | .strOrFloat, .str _ => .ok ()
   | .strOrFloat, .float _ => .ok ()
   | .strOrFloat, _ => .error "assertion"
@@ -113,7 +120,7 @@ def setFields (c : ClassSpec) (valid : String → JVal → Bool) (forgiving : Bo
     | .ok () =>
       if (names c).contains k then
         if valid k v then setFields c valid forgiving rest (setF x k v) else .error "label"
-      else if c.attrs.contains k then .error "unmodelled"
+      else if !c.strictFields && c.attrs.contains k then .error "unmodelled"
       else if forgiving then setFields c valid forgiving rest x
       else .error c.unknownErr
 
